@@ -7,6 +7,12 @@ CONSTANTS
   Aliases = {"bits", "nl", "nopad", "urlsafe", "space"}
   CoverAliases = {"bits"}
   CoverFaultProofs = {"correct"}
+  DonorIdfs = {"absent", "right", "wrong"}
+  ForgedIdfs = {"absent", "right", "wrong"}
+  HistLogs = {"L1"}
+  HistProofs = {"correct", "empty"}
+  HistFaults = {"ctx"}
+  HistTs = {1}
   Depth = 12
 INIT Init
 NEXT SimNextF
